@@ -795,14 +795,14 @@ class Hypergraph:
                     self._node[n].add(idx)
 
                 self._edge_attr[idx] = self._edge_attr_dict_factory()
+                if format2 or format4:
+                    update_uid_counter(self, idx)
                 self._edge_attr[idx].update(attr)
                 self._edge_attr[idx].update(eattr)
 
             try:
                 e = next(new_edges)
             except StopIteration:
-                if format2 or format4:
-                    update_uid_counter(self, idx)
                 break
 
     def add_weighted_edges_from(self, ebunch, weight="weight", **attr):
